@@ -236,6 +236,17 @@ pub fn enumerate_cuts(made: &Made, cuts: &Cuts) -> Vec<usize> {
             for _ in 0..*sample {
                 set.insert(rng.usize_below(len + 1));
             }
+            // torn tails that look like structure: cuts right after four zero bytes (a truncated
+            // BGZF member whose last bytes read as ISIZE = 0, a zero length/count field), up to 64
+            // spread over the file
+            if !cram {
+                let b = &made.bytes;
+                let zs: Vec<usize> = (4..len).filter(|&k| b[k - 4..k] == [0, 0, 0, 0] && b[k] != 0).collect();
+                let step = zs.len().div_ceil(64).max(1);
+                for k in zs.into_iter().step_by(step) {
+                    set.insert(k);
+                }
+            }
             set.insert(len);
             set.insert(0);
             set.into_iter().collect()
